@@ -10,7 +10,8 @@
      tsOK, tsSec, tsNano              "timestamp" parses as RFC 3339 / the instant it denotes
      lit                              bytes of the message literal as written (layer 1 only)
    TLC evaluates the statement's formula (LogJson.tla layer 2) on every record and reports the
-   failing monitors; records whose literal differs from strconv.Quote (layer 1) are DRIFT.          *)
+   failing monitors (naming the deviation the literal exhibits); records whose literal differs from
+   layer 1 (L1Lit: json.Marshal, or the deviation selected by L1Variant) are DRIFT.                *)
 EXTENDS LogJson
 
 Trace == ndJsonDeserialize("C37_trace.ndjson")
@@ -22,7 +23,7 @@ TraceSpec == TraceInit /\ [][TraceNext]_<<l, vars>>
 
 Verdicts ==
     l >= 1 => LET r == Trace[l]  f == Failing(r) IN
-              /\ Monitor(f = {}, [l |-> l, monitors |-> f, exp |-> Decode(r.bytes)])
-              /\ (r.lit = QuoteGo(r.bytes) \/ Emit("DRIFT", [l |-> l]))
+              /\ Monitor(f = {}, [l |-> l, monitors |-> f, exp |-> Decode(r.bytes), deviation |-> DeviationOf(r.lit, r.bytes)])
+              /\ (r.lit = L1Lit(r.bytes) \/ Emit("DRIFT", [l |-> l]))
 Accepted == TLCGet("stats").diameter - 1 = Len(Trace)
 =============================================================================
